@@ -188,11 +188,17 @@ func typeFromAST(schema Schema, inputTypeAST ast.Type) (Type, error) {
 		if err != nil {
 			return nil, err
 		}
+		if innerType == nil {
+			return nil, nil
+		}
 		return NewList(innerType), nil
 	case *ast.NonNull:
 		innerType, err := typeFromAST(schema, inputTypeAST.Type)
 		if err != nil {
 			return nil, err
+		}
+		if innerType == nil {
+			return nil, nil
 		}
 		return NewNonNull(innerType), nil
 	case *ast.Named:
